@@ -259,6 +259,8 @@ func C09(tier rt.Tier) int {
 			// one and two keys, much deeper: long alternations of rewrite / commit / collect / reload
 			{name: "1key-very-deep", keys: []int{0}, vals: []string{"a", "b"}, levels: []int{0}, gc: true, reload: true, depth: 13, maxNoDup: 7},
 			{name: "2keys-very-deep", keys: []int{0, 4}, vals: []string{"a", "b"}, levels: []int{1}, gc: true, reload: true, depth: 10, maxNoDup: 6},
+			// a non-root branch with three and four children (keys 01.., 02.., 03.. under the root's child 0, key 1.. beside it)
+			{name: "3way-non-root-branch", keys: []int{4, 6, 7, 5}, vals: []string{"a"}, levels: []int{0}, gc: true, reload: true, depth: 10, maxNoDup: 6},
 			// proofs read from the live trie between reloads and updates (all tries of one root share one hash-node object)
 			{name: "proofs-between-reloads", keys: []int{0, 1, 4}, vals: []string{"a", "b"}, levels: []int{0, 1}, reload: true, proofOp: true, depth: 6, maxNoDup: 4},
 			// operations that fail with a storage read error (collapsed nodes must be loaded) leave the trie as it was
